@@ -12,6 +12,7 @@ Transformations (KINDS):
   method    stored <-> deflated zip members
   form      single-file zip <-> package folder (Index.zip + loose files)
   offsets   narrow (byte) <-> wide (4-byte unit) cell offsets of rows where both encodings can express the row
+  rows      the order of a tile's rowInfos and of the table's tile references (each keeps its tile_row_index / tileid)
   headers   explicit header records for a subset of the rows that have no storage; header records of such rows removed;
             rowInfos of rows that store no cell removed (with or without their header record)
 All randomness comes from the `rng` argument."""
@@ -25,7 +26,7 @@ import zipfile
 from array import array
 from pathlib import Path
 
-KINDS = ("perm", "rechunk", "order", "method", "form", "offsets", "headers")
+KINDS = ("perm", "rechunk", "order", "method", "form", "offsets", "headers", "rows")
 
 
 class Member:
@@ -527,8 +528,44 @@ def _remove_headers(msgs, buckets, victims, pack):
     return n
 
 
+def t_rows(pack: Pack, rng, style=None):
+    """Stored rows carry their own position: shuffle the rowInfos of each tile and the tile references of each table."""
+    msgs = Messages(pack)
+    style = style or rng.choice(["shuffle", "reverse"])
+    n = 0
+    for ident, tm, buckets, tiles, tsz in table_layouts(msgs):
+        for tileid, tid_, tile in tiles:
+            k = len(tile.rowInfos)
+            if k > 1:
+                order = list(range(k))
+                if style == "reverse":
+                    order.reverse()
+                else:
+                    while order == list(range(k)):
+                        rng.shuffle(order)
+                _reorder(tile.rowInfos, order)
+                msgs.touch(tid_)
+                n += 1
+        refs = tm.base_data_store.tiles.tiles
+        if len(refs) > 1:
+            order = list(range(len(refs)))
+            if style == "reverse":
+                order.reverse()
+            else:
+                while order == list(range(len(refs))):
+                    rng.shuffle(order)
+            _reorder(refs, order)
+            msgs.touch(ident)
+            pack.bump("rows:tile-refs-reordered")
+            n += 1
+    msgs.flush()
+    pack.log.append(f"rows[{style}]: {n} rowInfo/tile lists reordered")
+    pack.bump("rows:lists", n)
+    return n > 0
+
+
 TRANSFORMS = {"perm": t_perm, "rechunk": t_rechunk, "order": t_order, "method": t_method, "form": t_form,
-              "offsets": t_offsets, "headers": t_headers}
+              "offsets": t_offsets, "headers": t_headers, "rows": t_rows}
 
 
 def rewrite(src, dst, kinds, rng, options=None):
@@ -540,7 +577,7 @@ def rewrite(src, dst, kinds, rng, options=None):
     for k in kinds:
         kw = {}
         if k in options and options[k] is not None:
-            kw = {"style" if k in ("perm", "order", "method", "headers") else "direction": options[k]} if k != "rechunk" and k != "form" else {}
+            kw = {"style" if k in ("perm", "order", "method", "headers", "rows") else "direction": options[k]} if k != "rechunk" and k != "form" else {}
         if TRANSFORMS[k](pack, rng, **kw):
             pack.applied.append(k)
     return save(pack, dst), pack
